@@ -136,7 +136,8 @@ CHECKS = {
                  "ServerCommand::from_bytes (hook H6) under catch_unwind, compared for equality with the original and validated on both sides; the same values go through the journal "
                  "encoding (19 EntryCommand kinds) and the on-disk message encoding (RetainedMessage). "
                  "(b) Differential histories on a real server: streams, topics, users (with nested permissions), groups, consumer offsets and messages with boundary values are created "
-                 "over TCP or HTTP (seeded choice) and read back over both transports by id and by name; answers must agree with each other and with what was sent. "
+                 "over TCP or HTTP (seeded choice) and read back over both transports by id and by name; answers must agree with each other and with what was sent; 23 JSON bodies that are not valid requests "
+                 "(wrong types, out-of-range ids, violated limits, bad base64) are sent over HTTP with root's token and must be refused with the catalogue unchanged. "
                  "(c) Hostile histories: unauthenticated, permission-less and group-member connections send random bytes, short/oversized length prefixes, valid codes with random payloads, "
                  "truncated and bit-flipped valid frames and unknown codes; each must be answered by an error or a closed connection, a healthy connection's model-checked log and the catalogue "
                  "must stay unchanged and a dead member's group membership must disappear. (d) Status codes: every code 1..20000 decodes (IggyError::from_code) to an error that encodes back to it or to the generic error; "
